@@ -32,7 +32,7 @@ def handleA (st : St) (n : Nat) (toks : List String) : Result := Id.run do
     if !tolerant && (r.status != istatus || r.body != ibody) then
       ok := false
       outs := outs ++ [s!"DIVERGE {n} A field=get model={r.status}:{(hx r.body).take 40} impl={istatus}:{(hx ibody).take 40}"]
-    if !tolerant && mclient != iclient then
+    if !tolerant && iclient != "skip" && mclient != iclient then
       ok := false
       outs := outs ++ [s!"DIVERGE {n} A field=client model={mclient.take 60} impl={iclient.take 60}"]
     if ok then
@@ -80,11 +80,11 @@ def handleA (st : St) (n : Nat) (toks : List String) : Result := Id.run do
     | none => pure ()
     match held, clean && Api.routeMatch id with
     | some b, true =>
-      if iclient != "ok:" ++ hx b then
+      if iclient != "skip" && iclient != "ok:" ++ hx b then
         let f := fail st n "C16" "the bundled client did not return exactly the stored bytes"
         st := f.st; outs := outs ++ f.out
     | _, _ =>
-      if iclient != "notexist" && istatus == 404 then
+      if iclient != "skip" && iclient != "notexist" && istatus == 404 then
         let f := fail st n "C16" s!"the bundled client did not map 404 to 'does not exist' ({iclient.take 30})"
         st := f.st; outs := outs ++ f.out
   else
